@@ -1636,6 +1636,15 @@ func (db *DB) CommitWAL(ctx context.Context) (err error) {
 			continue
 		}
 
+		// Skip pages that were written and then truncated within the same
+		// transaction (e.g. spilled to the WAL before an auto-vacuum shrank the
+		// database). They are not part of the committed image and the LTX
+		// encoder rejects pages past the commit size.
+		if pgno > commit {
+			TraceLog.Printf("[CommitWALPage(%s)]: pgno=%d SKIP(TRUNCATED)\n", db.name, pgno)
+			continue
+		}
+
 		// Read next frame from the WAL file.
 		offset := txFrameOffsets[pgno]
 		if _, err := internal.ReadFullAt(walFile, frame, offset); err != nil {
